@@ -53,6 +53,7 @@ SPEC_VARIANTS = [
     ("ParWorkers", "MC_ParWorkers_NoMutex", "average-strategy update without the mutex", "NoLostStrategyUpdate"),
     ("ParWorkers", "MC_ParWorkers_Scratch", "utilities parked in a per-infoset scratch cell", "ParEqualsSeq"),
     ("ParWorkers", "MC_ParWorkers_TryLock", "shared accumulator taken with try_lock().unwrap()", "NoPanic"),
+    ("ParWorkers", "MC_ParWorkers_NonAtomic", "regret cell updated by load + store instead of fetch_add", "ParEqualsSeq"),
 ]
 
 
